@@ -26,6 +26,7 @@ RULE = ("every DIE of generated forests (<= 8 units, partial units imported thro
 QD = ("entry (|D| [D] [D child] [D parent] [D root] [D unit] [D ?root] [D parent*] [D root ?root] [D offset] [D label] "
       "[D attribute label] [D D ?eq])")
 QU = "unit (|U| [U] [U entry] [U root] [U root child*])"
+QUU = "(|W| W entry (|D| D offset [W raw unit (|U| ?(U D unit ?eq))] length))"
 QE = ("unit (|U| U [U entry] length [U root child*] length [U entry (|D| D ?(U root child* (|E| E D ?eq)))] length "
       "[U root child* (|D| D ?(U entry (|E| E D ?eq)))] length)")
 
@@ -198,6 +199,20 @@ def check_file(drv, ev, path, what, f=None):
                 re_ = drv.run(QE, "V%d" % h, limit=2000, steps=400000000)
             finally:
                 drv.req("vclose %d" % h)
+            # ... and `D unit` is one unit: among all the units of the file and of its supplementary file exactly one is
+            # `==` to it (two units at one offset of the two files are different units)
+            if not why and getattr(f, "alt", None) is not None:
+                h = drv.open(path, mode == "raw")
+                try:
+                    ru_ = drv.run(QUU, "V%d" % h, limit=30000, steps=400000000)
+                finally:
+                    drv.req("vclose %d" % h)
+                if "error" not in ru_ and ru_.get("end"):
+                    ev.label("engine-equality-of-units")
+                    for s_ in ru_["res"]:
+                        if int(s_[-1]["v"]) != 1:
+                            why = "DIE %#x: %d of the file's units are `==` to its `unit`" % (int(s_[-2]["v"]), int(s_[-1]["v"]))
+                            break
             if "error" not in re_ and re_.get("end"):
                 ev.label("engine-equality-of-entry-and-child-closure")
                 for s_ in re_["res"]:
